@@ -42,7 +42,7 @@ def ENCODED():
 def cases(tier, seed):
     # top-level split on the five flags (exhaustive: 2^5 sub-cases) for parallelism; ellipsoid verdicts and counts stay symbolic
     out = ["combos/" + "".join(bits) for bits in itertools.product("01", repeat=5)]
-    out += ["route/default", "route/custom-season", "route/custom-week", "best/k", "best/refit"]
+    out += ["route/default", "route/custom-season", "route/custom-week", "route/reversed-options", "best/k", "best/refit"]
     return out
 
 
@@ -225,6 +225,7 @@ CUSTOM = {
     "default": {},
     "custom-season": {"season": {"january": "summer", "february": "summer", "march": "winter", "april": "winter", "may": "shoulder", "june": "shoulder",
                                  "july": "winter", "august": "winter", "september": "shoulder", "october": "summer", "november": "shoulder", "december": "summer"}},
+    "reversed-options": {"weekday_weekend": {"options": ["weekend", "weekday"], "friday": "weekend"}},  # the two labels listed in the other order
     "custom-week": {"weekday_weekend": {"monday": "weekend", "tuesday": "weekday", "wednesday": "weekday", "thursday": "weekday", "friday": "weekend",
                                         "saturday": "weekday", "sunday": "weekend"}},
 }
